@@ -3,7 +3,7 @@ CONSTANTS
   Models <- GenViscous
   ExecModes = {"jit"}
   DefClasses = {"inc"}
-  LoadClasses = {"inc", "reverse", "tiny"}
+  LoadClasses = {"inc", "reverse", "tiny", "large"}
   DtClasses = {"fast", "mid", "slow"}
   MaxRank = 0
   MaxClass = 0
